@@ -40,6 +40,14 @@ def set_overlay(mapping):
 _gen = 0
 
 
+def unoverlay(path):
+    """the repository path that a mutation-overlay replacement file stands for (identity for ordinary paths)"""
+    for k, v in OVERLAY.items():
+        if v == path:
+            return k
+    return path
+
+
 def overlay_file():
     if not OVERLAY:
         return None
